@@ -24,7 +24,7 @@ TInit == /\ tid \in 1..Len(TraceLog) /\ l = 0
          /\ wf = "none"
          /\ tk = [x \in Rng(TraceLog[tid].prog.order) |-> NoRow]
          /\ ax = [x \in Rng(TraceLog[tid].prog.order) |-> <<>>]
-         /\ msgs = {} /\ seen = {} /\ ptq = {} /\ jobs = {} /\ backlog = <<>> /\ now = 0
+         /\ msgs = {} /\ seen = {} /\ ptq = {} /\ jobs = {} /\ backlog = <<>> /\ now = 0 /\ lpass = NoPass
          /\ hist = H0
          /\ ev = [a |-> "Init"]
 
@@ -73,6 +73,9 @@ Act(e) ==
     [] e.kind = "job" /\ e.phase = "capture" -> \E j \in jobs : j.func = Func(e.what) /\ (e.t = "" \/ j.t = e.t) /\ JobCapture(j)
     [] e.kind = "job" /\ e.phase = "invoke" -> \E j \in jobs : j.func = Func(e.what) /\ (e.t = "" \/ j.t = e.t) /\ JobInvoke(j)
     [] e.kind = "job" /\ e.phase = "delete" -> \E j \in jobs : j.func = Func(e.what) /\ (e.t = "" \/ j.t = e.t) /\ JobDelete(j)
+    [] e.kind = "lpoll" -> LPoll
+    [] e.kind = "linv" -> LInvoke /\ ev'.func = Func(e.what) /\ (e.t = "" \/ ev'.t = e.t)
+    [] e.kind = "ldel" -> LDelete
     [] e.kind = "tick" -> TickTo(e.now)
     [] OTHER -> FALSE
 TNext == /\ l < Len(Steps) /\ l' = l + 1 /\ UNCHANGED tid
@@ -84,5 +87,5 @@ Report == /\ PrintT(<<"reached", tid, l>>)
 \* debugging aid: print the model state at every reached position of one run
 DumpReport == /\ Report
               /\ PrintT(<<"state", tid, l, [wf |-> wf, tk |-> tk, ax |-> ax, msgs |-> msgs, ptq |-> ptq, jobs |-> jobs,
-                                           backlog |-> backlog, seen |-> seen, now |-> now]>>)
+                                           backlog |-> backlog, seen |-> seen, now |-> now, lpass |-> lpass]>>)
 =============================================================================
